@@ -27,12 +27,49 @@ Theorem C19_with_contexts : forall sh cl,
 Proof. exact with_contexts. Qed.
 Print Assumptions C19_with_contexts.
 
-(* PARTIAL.  Full statement (not proved): the entry sequence of the summary equals the
-   frame/context header lines of fmt, child task stacks removed, frames moved behind their
-   contexts, for the whole tree.  Proved: at every level the summary and the skeleton that
-   C18_roundtrip reads back from the text are indexed by the SAME list of visible frames /
-   visible contexts, in the same order (the recursion into inner stacks uses the same functions). *)
-Theorem C19_projection_partial : forall o cl,
+(* Whole-tree projection.  [headers_stack] lists the frame/context headers in SUMMARY order,
+   [pre_stack] in FORMAT order (both skip child task stacks); [prune_stack] deletes child task
+   stacks.  For every tree, with show_contexts:
+   (1) the summary is, entry by entry, the FrameSummary of each header in summary order;
+   (2) the format order is, top to bottom, the header lines of the text that Stack.format
+       prints for the tree without its child task stacks (the skeleton read back from that text
+       by C18's read_back, flattened);
+   (3) removing the child task stacks does not change the summary;
+   (4) summary order is a permutation of the format order minus the own headers of frames whose
+       last context is exiting; C19_projection_orders says which permutation: per frame,
+       contexts' headers ++ [frame header]  versus  [frame header] ++ contexts' headers,
+       identical recursion everywhere else. *)
+Theorem C19_projection : forall o cl t,
+  show_ctx o = true ->
+  let sh := show_hidden o in
+  summary true sh cl t = map (entry_of cl) (headers_stack sh t)
+  /\ (exists hdr sk, read_back (fmt_stack_sl o (prune_stack t)) = Some (hdr, sk)
+                     /\ sk_pre_stack sk = map hdr_line (pre_stack sh t))
+  /\ summary true sh cl (prune_stack t) = summary true sh cl t
+  /\ Permutation.Permutation (headers_stack sh t) (filter kept (pre_stack sh t)).
+Proof. exact projection. Qed.
+Print Assumptions C19_projection.
+
+Theorem C19_projection_orders : forall sh,
+  (forall f, pre_frame sh f = HFrame f :: flat_map (pre_ctx sh f None) (f_ctxs f)
+             /\ headers_frame sh f = flat_map (headers_ctx sh f None) (f_ctxs f)
+                                     ++ (if last_exiting (f_ctxs f) then [] else [HFrame f]))
+  /\ (forall p ov c,
+        pre_ctx sh p ov c
+        = (if visb sh (c_hide c)
+           then HCtx p ov c :: (match c_inner c with Some s => pre_stack sh s | None => [] end)
+                ++ flat_map (fun c' => pre_ctx sh p (Some (child_override c')) c') (child_contexts (c_kids c))
+           else [])
+        /\ headers_ctx sh p ov c
+        = (if visb sh (c_hide c)
+           then HCtx p ov c :: (match c_inner c with Some s => headers_stack sh s | None => [] end)
+                ++ flat_map (fun c' => headers_ctx sh p (Some (child_override c')) c') (child_contexts (c_kids c))
+           else [])).
+Proof. exact order_equations. Qed.
+Print Assumptions C19_projection_orders.
+
+(* level-wise form: summary and read-back skeleton are indexed by the same visible lists *)
+Theorem C19_projection_levels : forall o cl,
   show_ctx o = true ->
   (forall r fs lf er,
       let V := filter (fun f => visb (show_hidden o) (f_hide f)) fs in
@@ -44,7 +81,7 @@ Theorem C19_projection_partial : forall o cl,
       = flat_map (sum_ctx f (show_hidden o) cl None) V ++ (if last_exiting (f_ctxs f) then [] else [frame_entry cl f])
       /\ (let 'SkFrame _ cx _ := sk_of_frame o f in cx) = map (sk_of_ctx o true true) V).
 Proof. exact projection_levels. Qed.
-Print Assumptions C19_projection_partial.
+Print Assumptions C19_projection_levels.
 
 (* format_flat = header ++ rendering of the summary (hidden frames dropped, no locals) ++ leaf
    ++ error, for ANY rendering function (traceback.StackSummary.format is not modelled) *)
@@ -64,6 +101,13 @@ Definition ex_s : stack :=
   Stk None [ex_f true []; ex_f false [ex_c false false (Some (Stk None [ex_f false []] None None))
                                             [KCtx (ex_c true false None []); KStk (Stk None [ex_f false []] None None)];
                                       ex_c false true None []]] None None.
+Example C19_projection_example :
+  let o := {| M_Format.ascii := false; show_ctx := true; show_hidden := true |} in
+  List.length (headers_stack true ex_s) = 5 /\ List.length (pre_stack true ex_s) = 6
+  /\ List.length (filter kept (pre_stack true ex_s)) = 5
+  /\ map hdr_line (pre_stack true ex_s) <> map hdr_line (headers_stack true ex_s).
+Proof. vm_compute. repeat split. discriminate. Qed.
+
 Example C19_example :
   List.length (summary false false false ex_s) = 1 /\ List.length (summary false true false ex_s) = 2
   /\ List.length (summary true false false ex_s) = 3 /\ List.length (summary true true false ex_s) = 5.
